@@ -110,6 +110,21 @@ def positives(seed, n_seeded):
     # explicit bounds that are weaker than what would be generated: with bounds(..) nothing else is added, so a field type
     # that needs no bound at all (not generic) must not acquire one
     each("S", "<T>", "", [("", "PhantomData<T>"), ("", "u8")], [("S<NoInfo>", [("T", N)])], ["bounds_attr", "skip_type_params"], attrs="#[scale_info(bounds(), skip_type_params(T))]\n")
+    # explicit bounds together with a where clause of the definition itself: the where clause must be kept
+    each("S", "<T>", "where T: Tr", [("", "T::A")], [("S<Impl>", [("T", S)])], ["bounds_attr", "where_clause", "bounds_with_where"],
+         attrs="#[scale_info(bounds(T: TypeInfo + 'static, T::A: TypeInfo + 'static))]\n")
+    each("S", "<T, U>", "where T: Tr, U: Clone", [("", "<T as Tr>::N"), ("", "U")], [("S<Impl, u8>", [("T", S), ("U", S)])], ["bounds_attr", "where_clause", "bounds_with_where"],
+         attrs="#[scale_info(bounds(T: TypeInfo + 'static, U: TypeInfo + 'static, <T as Tr>::N: TypeInfo + 'static))]\n")
+    # an associated type (or a type in another module) that happens to be named like the derived type
+    add("pub trait Config { type Balance; }\n#[derive(TypeInfo)]\npub struct Cfg;\nimpl Config for Cfg { type Balance = u128; }\n#[derive(TypeInfo)]\npub struct Balance<T: Config> {\n    free: T::Balance,\n    reserved: Vec<T::Balance>,\n}",
+        [("Balance<Cfg>", [("T", S)])], ["assoc", "assoc_named_like_type"])
+    add("pub mod v1 {\n    use super::*;\n    #[derive(TypeInfo)]\n    pub struct Wrapper<T>(pub T);\n}\n#[derive(TypeInfo)]\npub struct Wrapper<T> {\n    old: v1::Wrapper<T>,\n    new: Option<v1::Wrapper<Vec<T>>>,\n}",
+        [("Wrapper<u8>", [("T", S)])], ["namesake_in_other_module"])
+    add("pub trait Config { type Item; }\npub struct CfgNoInfo;\nimpl Config for CfgNoInfo { type Item = u8; }\n#[derive(TypeInfo)]\n#[scale_info(skip_type_params(T))]\npub enum Item<T: Config> {\n    One(T::Item),\n    Many { all: Vec<T::Item> },\n}",
+        [("Item<CfgNoInfo>", [("T", N)])], ["assoc", "assoc_named_like_type", "skip_type_params"])
+    # two separate codec attributes on one variant, skip not first
+    each("S", "<T>", "", [("", "T")], [("S<u8>", [("T", S)])], ["codec_skip", "codec_skip_variant", "two_codec_attributes"], only=["enum_named", "enum_tuple"],
+         variants_extra="    #[codec(index = 9)]\n    #[codec(skip)]\n    Cached(NoInfoOf<T>),\n    #[codec(index = 10)]\n    #[doc = \"x\"]\n    #[codec(skip)]\n    CachedNamed { y: NoInfo },\n")
     # 7. #[codec(skip)] members need no type info
     each("S", "<T>", "", [("#[codec(skip)]\n    ", "NoInfo"), ("", "T")], [("S<u8>", [("T", S)])], ["codec_skip"])
     each("S", "<T>", "", [("#[codec(skip)]\n    ", "NoInfoOf<T>"), ("", "T")], [("S<u8>", [("T", S)])], ["codec_skip", "codec_skip_generic"])
@@ -221,6 +236,24 @@ def negatives(seed):
                       ("Fields::<PortableForm>::named().field_portable(|f| f.name(\"a\".to_string()))", "Fields::<PortableForm>::named().field_portable(|f| f.name(\"a\".to_string()).ty(1u32))"),
                       ("Fields::<PortableForm>::unnamed().field_portable(|f| f)", "Fields::<PortableForm>::unnamed().field_portable(|f| f.ty(1u32))")]:
         add("builder/field-without-type", fn("%s.finalize()" % bad), fn("%s.finalize()" % good), ["field-without-type", "in-fields-builder"])
+    # every setter that does not supply the missing part, alone and combined, must leave the builder unfinished
+    deco_field = [".type_name(\"T\")", ".docs(&[\"d\"])", ".docs_always(&[\"d\"])", ".docs_always(&[\"d\"]).type_name(\"T\")", ".name(\"a\").docs_always(&[\"d\"])", ".name(\"a\").docs(&[\"d\"]).type_name(\"T\")"]
+    for dco in deco_field:
+        named = ".name(" in dco
+        fb = "Fields::named()" if named else "Fields::unnamed()"
+        add("builder/field-without-type", fn("%s.field(|f| f%s).finalize()" % (fb, dco)), fn("%s.field(|f| f%s.ty::<u8>()).finalize()" % (fb, dco)), ["meta", "field-without-type", "decorated"])
+        add("builder/field-without-type", fn("FieldBuilder::<MetaForm>::new()%s.finalize()" % dco), fn("FieldBuilder::<MetaForm>::new()%s.ty::<u8>().finalize()" % dco), ["meta", "field-without-type", "decorated", "direct"])
+    for dco in [".type_name(\"T\".to_string())", ".name(\"a\".to_string()).type_name(\"T\".to_string())"]:
+        named = ".name(" in dco
+        fb = "Fields::<PortableForm>::named()" if named else "Fields::<PortableForm>::unnamed()"
+        add("builder/field-without-type", fn("%s.field_portable(|f| f%s).finalize()" % (fb, dco)), fn("%s.field_portable(|f| f%s.ty(1u32)).finalize()" % (fb, dco)), ["portable", "field-without-type", "decorated"])
+    for dco in [".docs(&[\"d\"])", ".docs_always(&[\"d\"])", ".discriminant(1).docs_always(&[\"d\"])", ".fields(Fields::unnamed().field(|f| f.ty::<u8>())).docs_always(&[\"d\"])"]:
+        add("builder/variant-without-index", fn("Variants::<MetaForm>::new().variant(\"V\", |v| v%s).finalize()" % dco), fn("Variants::<MetaForm>::new().variant(\"V\", |v| v%s.index(3)).finalize()" % dco), ["meta", "variant-without-index", "decorated"])
+    for dco in [".docs(&[\"d\"])", ".docs_always(&[\"d\"]).type_params(vec![])", ".type_params(vec![]).docs(&[\"d\"])"]:
+        add("builder/no-path", fn("Type::builder()%s.composite(Fields::unit())" % dco), fn("Type::builder()%s.path(%s).composite(Fields::unit())" % (dco, path)), ["meta", "type-without-path", "decorated"])
+    # decorated named / unnamed mix-ups
+    add("builder/unnamed-among-named", fn("Fields::named().field(|f| f.ty::<u8>().docs_always(&[\"d\"]).type_name(\"u8\")).finalize()"), fn("Fields::named().field(|f| f.ty::<u8>().docs_always(&[\"d\"]).type_name(\"u8\").name(\"a\")).finalize()"), ["meta", "unnamed-among-named", "decorated"])
+    add("builder/named-among-unnamed", fn("Fields::unnamed().field(|f| f.docs_always(&[\"d\"]).name(\"a\").ty::<u8>()).finalize()"), fn("Fields::unnamed().field(|f| f.docs_always(&[\"d\"]).ty::<u8>()).finalize()"), ["meta", "named-among-unnamed", "decorated"])
     # ---- named among unnamed / unnamed among named
     NA, NN, TA, TN = ["scale_info::build::field_state::" + x for x in ("NameAssigned", "NameNotAssigned", "TypeAssigned", "TypeNotAssigned")]
     add("builder/named-among-unnamed", fn("Fields::unnamed().field(|f| f.ty::<u8>().name(\"a\")).finalize()"), fn("Fields::unnamed().field(|f| f.ty::<u8>()).finalize()"), ["meta", "named-among-unnamed"])
@@ -283,6 +316,20 @@ def negatives(seed):
         dv("#[scale_info(bounds(U: TypeInfo + 'static, T: TypeInfo + 'static))]\n", "pub struct S<T, U> { a: T, b: U }").replace("S<u8>", "S<u8, u8>"), ["bounds-missing-param", "other-param"])
     add("derive/bounds-missing-param", dv("#[scale_info(bounds(T: TypeInfo + 'static), skip_type_params(U))]\n", "pub struct S<T, U, V> { a: T, b: PhantomData<U>, c: V }").replace("S<u8>", "S<u8, u8, u8>"),
         dv("#[scale_info(bounds(T: TypeInfo + 'static, V: TypeInfo + 'static), skip_type_params(U))]\n", "pub struct S<T, U, V> { a: T, b: PhantomData<U>, c: V }").replace("S<u8>", "S<u8, u8, u8>"), ["bounds-missing-param", "with-skip"])
+    # the parameters carry their own TypeInfo bounds in the declaration, so only the derive's own check can reject these
+    B = "TypeInfo + 'static"
+    add("derive/bounds-missing-param", dv("#[scale_info(bounds())]\n", "pub struct S<T: %s> { a: T }" % B), dv("#[scale_info(bounds(T: TypeInfo + 'static))]\n", "pub struct S<T: %s> { a: T }" % B), ["bounds-missing-param", "inline-bound", "empty"])
+    add("derive/bounds-missing-param", dv("#[scale_info(bounds(), skip_type_params(T))]\n", "pub struct S<T, U: %s> { a: PhantomData<T>, b: U }" % B).replace("S<u8>", "S<NoInfo, u8>"),
+        dv("#[scale_info(bounds(U: TypeInfo + 'static), skip_type_params(T))]\n", "pub struct S<T, U: %s> { a: PhantomData<T>, b: U }" % B).replace("S<u8>", "S<NoInfo, u8>"), ["bounds-missing-param", "inline-bound", "skipped-first"])
+    add("derive/bounds-missing-param", dv("#[scale_info(bounds(T: TypeInfo + 'static), skip_type_params(U))]\n", "pub struct S<T, U, V: %s> { a: T, b: PhantomData<U>, c: V }" % B).replace("S<u8>", "S<u8, NoInfo, u8>"),
+        dv("#[scale_info(bounds(T: TypeInfo + 'static, V: TypeInfo + 'static), skip_type_params(U))]\n", "pub struct S<T, U, V: %s> { a: T, b: PhantomData<U>, c: V }" % B).replace("S<u8>", "S<u8, NoInfo, u8>"), ["bounds-missing-param", "inline-bound", "skipped-middle"])
+    add("derive/bounds-missing-param", dv("#[scale_info(bounds(T::A: TypeInfo + 'static))]\n", "pub struct S<T: Tr + %s> { a: T::A }" % B).replace("S<u8>", "S<Impl>"),
+        dv("#[scale_info(bounds(T::A: TypeInfo + 'static, T: TypeInfo + 'static))]\n", "pub struct S<T: Tr + %s> { a: T::A }" % B).replace("S<u8>", "S<Impl>"), ["bounds-missing-param", "inline-bound", "only-assoc"])
+    add("derive/bounds-missing-param", dv("#[scale_info(bounds(<T as Tr>::A: TypeInfo + 'static))]\n", "pub struct S<T: Tr + %s> { a: T::A }" % B).replace("S<u8>", "S<Impl>"),
+        dv("#[scale_info(bounds(<T as Tr>::A: TypeInfo + 'static, T: TypeInfo + 'static))]\n", "pub struct S<T: Tr + %s> { a: T::A }" % B).replace("S<u8>", "S<Impl>"), ["bounds-missing-param", "inline-bound", "only-qualified-assoc"])
+    add("derive/bounds-missing-param", dv("#[scale_info(bounds(U: TypeInfo + 'static))]\n", "pub struct S<T: %s, U> { a: T, b: U }" % B).replace("S<u8>", "S<u8, u8>"),
+        dv("#[scale_info(bounds(U: TypeInfo + 'static, T: TypeInfo + 'static))]\n", "pub struct S<T: %s, U> { a: T, b: U }" % B).replace("S<u8>", "S<u8, u8>"), ["bounds-missing-param", "inline-bound", "other-param"])
+    add("derive/bounds-missing-param", dv("#[scale_info(bounds(Option<T>: TypeInfo + 'static))]\n", "pub struct S<T: %s> { a: Option<T> }" % B), dv("#[scale_info(bounds(Option<T>: TypeInfo + 'static, T: TypeInfo + 'static))]\n", "pub struct S<T: %s> { a: Option<T> }" % B), ["bounds-missing-param", "inline-bound", "only-container"])
     add("derive/bounds-missing-param", dv("#[scale_info(bounds(Vec<T>: TypeInfo + 'static))]\n"), dv("#[scale_info(bounds(Vec<T>: TypeInfo + 'static, T: TypeInfo + 'static))]\n"), ["bounds-missing-param", "only-container"])
     return out
 
